@@ -249,6 +249,36 @@ def _run_shard(spec, acc, ctx):
                     expect("fpe-key-length", lambda: prp(Bitset(0, kb + d), Bitset(0, n)))
                 acc.count("cases")
                 acc.add("distinct", fp("c", n, kb))
+        # key widths that are not whole bytes (the declared domain is a BIT length): a key with its top bit set is a
+        # valid key; the PRP must permute the whole n-bit domain under it and refuse keys one bit longer or shorter
+        for kb in (1, 7, 9, 63, 65, 100, 127, 129, 190, 255, 257):
+            for n in (2, 5, 8, 11):
+                try:
+                    prp = fpe_cls(message_bit_length=n, key_bit_length=kb)
+                except Exception as e:
+                    acc.count("prp.odd_key_width_refused_by_constructor")
+                    acc.note(f"BitwiseFPEPRP(key_bit_length={kb}) refused by the constructor: {type(e).__name__}")
+                    continue
+                key = Bitset(rng.getrandbits(kb) | (1 << (kb - 1)), kb)
+                acc.count("prp.odd_key_width_domains")
+                try:
+                    outs = [prp(key, Bitset(x, n)) for x in range(1 << n)]
+                except Exception as e:
+                    acc.violation(f"prp:odd-key-width-raised:{exc_site(e)}",
+                                  f"BitwiseFPEPRP with key_bit_length={kb}, n={n}: a valid key (top bit set) and a valid "
+                                  f"message raised {type(e).__name__}: {e}", {"key_bits": kb, "n": n})
+                    continue
+                if any(len(o) != n for o in outs) or len({int(o) for o in outs}) != (1 << n):
+                    acc.violation("prp:odd-key-width-not-a-permutation",
+                                  f"BitwiseFPEPRP with key_bit_length={kb}, n={n}: the outputs are not a permutation of the "
+                                  f"{1 << n} n-bit strings", {"key_bits": kb, "n": n})
+                if [int(prp(key, Bitset(x, n))) for x in range(1 << n)] != [int(o) for o in outs]:
+                    acc.violation("prp:odd-key-width-nondeterministic", f"kb={kb} n={n}", {"key_bits": kb, "n": n})
+                for d in (-1, 1):
+                    if kb + d >= 1:
+                        expect("fpe-key-length", lambda: prp(Bitset(0, kb + d), Bitset(0, n)))
+                acc.count("cases")
+                acc.add("distinct", fp("okw", n, kb))
         lr = prp_mod.get_prp_implementation("HmacLubyRackoffPRP")
         for ml in (1, 3, 5, 7, 33):
             expect("lr-odd-message-length", lambda: lr(message_length=ml, key_length=24))
